@@ -220,14 +220,16 @@ KANI["vk_plain_server_accepts_only_configured_credentials"] = {
   "pairs_fn": ["PlainMechanism::process_token"],
 }
 KANI["vk_negotiate_only_enabled_mechanisms"] = {
-  "module": "core/src/security/mod.rs", "file": "kani/negotiate.rs", "props": ["C06"], "kind": "complete", "timeout": 1500,
+  "module": "core/src/security/mod.rs", "file": "kani/negotiate.rs", "props": ["C06"], "kind": "witness", "bound": "replay-only (CBMC: no verdict in 1500 s)", "timeout": 1500,
   "what": "negotiate_security_mechanism over ALL 20-byte mechanism fields x configuration flags x role (default feature set): a mechanism is returned only if the peer named exactly a locally enabled one; NULL only when no security is configured "
           "(the contract the engine proof assumes for this function, minus the role clause, which is not observable through the trait object)",
   "pairs_fn": ["negotiate_security_mechanism"],
 }
 PROPS["C06"]["units"] = ["engine", "plain"]
 PROPS["C06"]["kani_fallback"] = ["vk_plain_server_accepts_only_configured_credentials"]
-PROPS["C06"]["kani_thorough"] = ["vk_plain_server_accepts_only_configured_credentials", "vk_negotiate_only_enabled_mechanisms"]
+# vk_negotiate_only_enabled_mechanisms was tried as a thorough harness (2026-09-24): CBMC gives no verdict within 1500 s (fn-pointer table, Box<dyn Mechanism>,
+# PlainMechanism construction in the cone); it stays registered for replay only and is NOT part of any tier.
+PROPS["C06"]["kani_thorough"] = ["vk_plain_server_accepts_only_configured_credentials"]
 PROPS["C06"]["claim"] += (" For PLAIN the mechanism side of that contract is proved too (unit plain): the server reaches ServerSendWelcome/Ready only through a well-formed HELLO whose username AND password equal the configured ones "
                           "(no configured credentials => every HELLO is rejected), an error is terminal, Ready on the server is reachable only from ServerSendWelcome; "
                           "security::initialize_plain (region) hands a listener exactly the configured credentials -- an option that was never set stays 'no valid value', it is not the empty string -- and builds the mechanism in the role it was asked for.")
